@@ -1296,7 +1296,7 @@ def tmember_tu(b, d, cases):
                     type_closure(w["return_type"], acc)
                     for q in w["parameters"]:
                         type_closure(q["type"], acc)
-                for ti, tn in sorted(acc.items()):
+                for tn in sorted(set(acc.values())):
                     probes.append(Probe(c, "Tv", tn, None, tn, expected=tn))
         if c.role == "data":
             el = elems.get(n)
